@@ -4,7 +4,7 @@ From Coq Require Import List NArith ZArith Bool Lia.
 From FP Require Import Model.Base Model.Rdh Model.RdhChecks Model.Payload Model.Alpide Model.Scanner Model.CdpRunning Model.Link
   Model.Collector Model.System Spec.RdhRules Spec.Framing Spec.GroundTruth
   Proofs.C03_proofs Proofs.C05_proofs Proofs.C06_proofs Proofs.C07_run Proofs.C14_proofs Proofs.C05_run Proofs.C06_run
-  Proofs.C16_proofs Proofs.C16_reportless Proofs.C16_run.
+  Proofs.C16_proofs Proofs.C16_reportless Proofs.C16_run Proofs.C02_proofs.
 From FP Require Gen.Facts.
 Import ListNotations.
 Open Scope N_scope.
@@ -56,3 +56,26 @@ Proof.
   split; [exact Hpos|]. intros n Hn1 Hn0. apply (proj1 (check_exit_iff ff c _ s shown ex n H Hn1 Hn0)). left. exact Hpos.
 Qed.
 End Whole.
+
+(* the detection theorems speak of `has_err off code` in a validator's report: carried to the end of the run *)
+Section EndToEnd.
+Context (c : run_cfg) (pkts : list packet).
+Context (Hoff : Gen.Facts.cdp_offset_sampled_after = true).
+Context (Hsort : Gen.Facts.error_sort_when_muted = true).
+Context (Hwf : Forall wf_pkt pkts).
+Context (Hn : N.of_nat (length pkts) < U32_MAX).
+Context (Hpay : pay_all pkts < U32_MAX).
+Context (Hlay : sc_skip (rc_scan c) = true \/ forall p, In p pkts -> layout_rp (hdr p) (p_payload p)).
+Context (Hknown : forall p r, pkts = p :: r -> known_sysid (r_system_id (hdr p)) = true).
+
+Theorem c02_end_to_end ff s shown ex id ms off code : run_check ff c (serialize pkts) = R_done s shown ex ->
+  sel (rc_check c) id (map (mk_cdp (rc_scan c)) (selected (rc_scan c) 0 pkts)) <> [] ->
+  run_validator (rc_check c) (sel (rc_check c) id (map (mk_cdp (rc_scan c)) (selected (rc_scan c) 0 pkts))) = Ok ms ->
+  has_err off code ms ->
+  (exists m, In m (k_errors s) /\ m_off m = off /\ m_body m = code) /\ 0 < k_total s /\ (forall n, rc_exit c = Some n -> n <> 0 -> ex = n).
+Proof.
+  intros H Hs Hr (v & Hv & He). destruct v as [e|f]; [|destruct He]. cbn in He. destruct He as [E1 E2].
+  destruct (c02_reported c pkts Hoff Hsort Hwf Hn Hpay Hlay Hknown ff s shown ex id ms e H Hs Hr Hv) as (A & B & C).
+  split; [|split; [exact B|exact C]]. exists (stored e). split; [exact A|]. split; [exact E1|exact E2].
+Qed.
+End EndToEnd.
